@@ -13,26 +13,40 @@ package fasthttp
 // final coding is not chunked, or whose head is rejected, is never followed by another request on the connection,
 // i.e. parseHeaders leaves connectionClose set.
 
+// C10, request side: "the request asked for close" is pinned for the spellings below (connection options are
+// case-insensitive tokens in a comma-separated list, RFC 9110 7.6.1): the whole value is `close` in any case, or
+// `close` is the first token directly followed by a comma, or the last token directly preceded by "," or ", ".
+// Tokens in the middle of a longer list are not covered by these clauses.
+//@ spec lc5(b []byte, i int) bool = (b[i] == 'c' || b[i] == 'C') && (b[i+1] == 'l' || b[i+1] == 'L') && (b[i+2] == 'o' || b[i+2] == 'O') &&
+//@                                  (b[i+3] == 's' || b[i+3] == 'S') && (b[i+4] == 'e' || b[i+4] == 'E')
+//@ spec closeFirst(b []byte, n int) bool = n >= 5 && lc5(b, 0) && (n == 5 || b[5] == ',')
+//@ spec closeLast(b []byte, n int) bool = (n >= 6 && lc5(b, n-5) && b[n-6] == ',') || (n >= 7 && lc5(b, n-5) && b[n-6] == ' ' && b[n-7] == ',')
+
 //@ func RequestHeader.parseHeaders results n err
-//@   property C01
+//@   property C01 C10
 //@   mode skeleton
 //@   stable h.disableSpecialHeader h.noHTTP11 h.secureErrorLogMessage h.disableNormalizing
 //@   ghost sawCL bool = false
 //@   ghost sawTE bool = false
 //@   ghost teChunked bool = false
+//@   ghost askedClose bool = false
 //@   on call caseInsensitiveCompare(a, b) -> r:
 //@     nohavoc
-//@     effect sawCL = sawCL || (r && sameSlice(b, strContentLength)); sawTE = sawTE || (r && sameSlice(b, strTransferEncoding)); teChunked = teChunked || (r && sameSlice(b, strChunked))
+//@     effect sawCL = sawCL || (r && sameSlice(b, strContentLength)); sawTE = sawTE || (r && sameSlice(b, strTransferEncoding)); teChunked = teChunked || (r && sameSlice(b, strChunked)); askedClose = askedClose || (r && sameSlice(b, strConnection) && (closeFirst(s.value, len(s.value)) || closeLast(s.value, len(s.value))))
 //@   end
 //@   ensures[error-closes] err != nil ==> h.connectionClose
+//@   ensures[asked-close-closes@C10] err == nil && askedClose && !h.disableSpecialHeader ==> h.connectionClose
 //@   ensures[cl-and-te-closes] err == nil && sawCL && sawTE && !h.disableSpecialHeader ==> h.connectionClose
 //@   ensures[te-not-chunked-closes] err == nil && sawTE && !teChunked && !h.disableSpecialHeader ==> h.connectionClose
 //@   ensures[chunked-wins] err == nil && sawTE && teChunked && !h.disableSpecialHeader ==> h.contentLength == -1
 //@   loop 1:
+//@     invariant[asked-close-recorded@C10] askedClose && !h.disableSpecialHeader ==> h.connectionClose
 //@     invariant[chunked-recorded] teChunked && !h.disableSpecialHeader ==> h.contentLength == -1
 //@     invariant[not-chunked] !teChunked ==> h.contentLength != -1
 //@     invariant[cl-flag] sawCL == contentLengthSeen
 //@     invariant[te-flag] sawTE == transferEncodingSeen
+//@   loop 2:
+//@     invariant[asked-close-kept@C10] askedClose && !h.disableSpecialHeader ==> h.connectionClose
 //@   on call headerScanner.next -> more:
 //@     havoc heap
 //@   on call header.SetTrailerBytes -> e:
@@ -62,6 +76,8 @@ package fasthttp
 //@ func validHeaderValueByte
 //@   trusted
 //@   pure
-//@ func hasHeaderValue
+// hasHeaderValue: trusted for the two spellings used above (its scanner loop is not verified here).
+//@ func hasHeaderValue results r
 //@   trusted
 //@   pure
+//@   ensures sameSlice(value, strClose) && (closeFirst(s, len(s)) || closeLast(s, len(s))) ==> r
